@@ -118,6 +118,14 @@ impl Arena {
     }
 }
 
+/// 64 KiB of zeroed memory below 4 GiB (so that a 32-bit ELF `addr` field can point to it)
+pub fn low_buffer() -> *mut u8 {
+    const MAP_32BIT: i32 = 0x40;
+    let p = unsafe { mmap(std::ptr::null_mut(), 65536 + PAGE, PROT_RW, MAP_PRIVATE | MAP_ANON | MAP_32BIT, -1, 0) };
+    assert!(!p.is_null() && p as isize != -1 && (p as usize) < (1usize << 32), "low mmap failed");
+    p
+}
+
 /// Run `f`, mapping an unwinding panic to `Err(())`.
 pub fn guarded<T>(f: impl FnOnce() -> T) -> Result<T, ()> {
     catch_unwind(AssertUnwindSafe(f)).map_err(|_| ())
